@@ -164,7 +164,18 @@ class G(object):
         body = self.flow(0, 4)
         if self.rng.random() < 0.06:
             body = [self.el(self.rng.choice(["meta", "link"]), [], [(None, "itemprop", "a"), (None, "content" if self.rng.random() < 0.5 else "href", "b")])] + body
-        html = ("elem", H, "html", self.attrs() if self.rng.random() < 0.3 else [], [("elem", H, "head", [], head), ("elem", H, "body", self.attrs() if self.rng.random() < 0.2 else [], body)])
+        r = self.rng.random()
+        if r < 0.10:
+            body = [self.el("script", [("text", "a<b")])] + body
+        elif r < 0.16:
+            body = [self.el("style", [("text", "p{}")])] + body
+        # inter-element whitespace and comments are allowed between the children of html
+        r = self.rng.random()
+        between = [("text", self.rng.choice(["\n", " ", "\n  "]))] if r < 0.15 else [("comment", " between ")] if r < 0.25 else []
+        before = [("comment", "pre-head")] if self.rng.random() < 0.05 else []
+        after = [("comment", "post-body")] if self.rng.random() < 0.05 else []
+        html = ("elem", H, "html", self.attrs() if self.rng.random() < 0.3 else [],
+                before + [("elem", H, "head", [], head)] + between + [("elem", H, "body", self.attrs() if self.rng.random() < 0.2 else [], body)] + after)
         return ("doc", [("doctype", "html", None, None), html])
 
 
